@@ -26,12 +26,10 @@ ASSUMPTIONS = [
     'coefficients and vector entries are dyadic Gaussian rationals (float arithmetic exact)',
 ]
 OPEN_STATEMENTS = [
-    'qubit_sparse_sound is proved per term (qubit_term_matrix_sound: Kronecker chain of a Pauli string = its Spec '
-    'matrix, every n) and the final duplicate summation is proved (coo_assembly_sound); the per-term coordinate '
-    'extraction of qubit_operator_sparse (values in CSC order zipped with the swapped row-major nonzero() indices, '
-    'right only for symmetric sparsity) is Corr + oracle only (all entries compared exactly on <= 5 qubits, '
-    'sampled rows / columns up to 12); jordan_wigner_sparse is proved end to end (jw_ladder_sound, '
-    'jw_term_matrix_sound, jw_sparse_sound)',
+    'qubit_operator_sparse and jordan_wigner_sparse are proved end to end for every register size '
+    '(qubit_term_matrix_sound, coordinate_extraction_sound, coo_assembly_sound, qubit_sparse_sound; jw_ladder_sound, '
+    'jw_term_matrix_sound, jw_sparse_sound); the tensor dispatch (get_fermion_operator) belongs to C08 and is '
+    'covered here by the oracle against the operator built from the tensors by the checker',
     'matvec_sound (matvec_term_sound + matvec_linear), diagonal_term_sound and parallel_matvec_sound are proved at the '
     'level stated in Properties/C06.lean (per term resp. per entry); diagonal_sound covers the sum over the terms',
     'truncated boson / quadrature matrices (sqrt amplitudes): numeric correspondence only',
